@@ -239,9 +239,11 @@ def check_malformed(res, tag, L, ob):
         return
     sidx = int(L._basis_blade_order.bitmap_to_index[0])
     for kind, mk in MALFORMED:
-        s = mk(names)
+      for npre, prefix in enumerate(("", "1 +\n", "1 +\n 2 +\n", "1 +\n 2 +\n\n   3 +\n")):
+        s = prefix + mk(names)
         res.case(('malformed', tag, kind, s))
         res.count('malformed_' + kind)
+        res.count('malformed_line%d' % (s.count('\n') + 1))
         try:
             L.parse_multivector(s)
             res.violate('malformed string does not raise SyntaxError', dict(site, string=s, kind=kind), 'parsed', 'SyntaxError', dict(site, op='malformed', kind=kind))
@@ -257,10 +259,17 @@ def check_malformed(res, tag, L, ob):
         toks = _tokenize(L, s)
         tt = tok_text(toks)
         if tt is not None:
-            # model: position = index of the rejected token; real: 1-based column of that token
+            # model: position = index of the rejected token; real: line number, 1-based column within that line, and the line itself
             spans = [m.span()[0] for _, m, _ in toks]
             ob.raw(f"PARSE {sidx} {L.gaDims} {tt}", None, 'malformed', key=('malformed-model', tag, s))
-            ob.meta[-1][3]['check'] = ('errpos', spans, int(err.offset), s, site, kind)
+            ob.meta[-1][3]['check'] = ('errpos', spans, (int(err.lineno), int(err.offset), err.text), s, site, kind)
+
+
+def position_of(s, pos):
+    """(line number, 1-based column, line text) of absolute position pos in s"""
+    start = s.rfind('\n', 0, pos) + 1
+    end = s.find('\n', pos)
+    return s.count('\n', 0, pos) + 1, pos - start + 1, s[start:(len(s) if end < 0 else end)]
 
 
 def run_job(job, tier, seed):
@@ -312,10 +321,12 @@ def run_job(job, tier, seed):
                     res.disagree('model parses a string the library rejects', dict(string=s, tokens=line), 'SyntaxError', rep, dict(site, op='malformed-model', kind=mk))
                 else:
                     p = int(rep.split()[1])
-                    exp_off = spans[p] + 1 if p < len(spans) else None
-                    if exp_off != offset:
-                        res.disagree('SyntaxError position differs from the model (offending token)', dict(string=s, tokens=line), offset, exp_off,
-                                     dict(site, op='malformed-pos', kind=mk))
+                    exp_pos = position_of(s, spans[p]) if p < len(spans) else None
+                    if exp_pos is None or tuple(offset[:2]) != exp_pos[:2] or (offset[2] is not None and offset[2].rstrip('\n') != exp_pos[2]):
+                        # the rejected token is the one the (translator-tied) state machine rejects; its line / column / text are computed here
+                        # from the string itself, so this is a failing input of the property's "SyntaxError with a position" clause
+                        res.violate('SyntaxError position (line, column, text) is not that of the offending token', dict(site, string=s, kind=mk, tokens=line),
+                                    list(offset), list(exp_pos) if exp_pos else None, dict(site, op='malformed-pos', kind=mk, line=(exp_pos[0] if exp_pos else None)))
                 continue
             res.case(m['key'] or line, nontrivial=m['nontrivial'])
             if rep != m['observed']:
